@@ -187,6 +187,7 @@ def run(ctx):
     explicit utf8 codec.  The two agree for every locale exactly when (a) the writer names the same codec as the reader, or
     (b) the writer emits ASCII only (json.dump's default ensure_ascii=True), which every ASCII-compatible locale codec and
     utf8 decode identically."""
+    ctx.rule('R01.11', 'where equal items are trimmed from both ends before aligning, the tail scan is bounded by the head count (no overlap)', floor=1)
     ctx.rule('R01.10', 'alignment predicates are reflexive: under y := x no `return False` is reachable before the equality shortcut (symbolic folding of each compare_* function)', floor=12)
     ctx.rule('R01.9', 'fields read from a diff entry exist for every op that the surrounding op tests still allow (field table from the op_* constructors)', floor=8)
     ctx.rule('R01.8', 'name binding: every global name a function refers to is bound at module level or builtin, and every local is assigned on every path before it is read', floor=6)
@@ -252,3 +253,5 @@ def run(ctx):
     check_op_fields(ctx, 'R01.9', ['nbdime.diffing.', 'nbdime.patching', 'nbdime.diff_utils', 'nbdime.diff_format'])
     from ..reflexive import check_reflexive
     check_reflexive(ctx, 'R01.10')
+    from ..trim import check_trims
+    check_trims(ctx, 'R01.11', ['nbdime.diffing.'])
